@@ -92,6 +92,7 @@ type checkOpts struct {
 	seed                        int
 	keep                        bool
 	stab                        int
+	nosolve                     bool
 	verbose                     bool
 }
 
@@ -107,6 +108,7 @@ func cmdCheck(args []string) int {
 	fs.IntVar(&o.seed, "seed", 0, "seed")
 	fs.BoolVar(&o.keep, "keep", false, "keep query files")
 	fs.BoolVar(&o.verbose, "v", false, "verbose")
+	fs.BoolVar(&o.nosolve, "nosolve", false, "generate the verification conditions and print notes only")
 	fs.IntVar(&o.stab, "stab", 0, "stability test: additionally run every obligation with this many z3 random seeds (report only)")
 	fs.Parse(args)
 	start := time.Now()
@@ -176,6 +178,22 @@ func runProperty(w *World, o *checkOpts) *Report {
 			runs = append(runs, v)
 		}
 		rep.Funcs = append(rep.Funcs, fr)
+	}
+	if o.nosolve {
+		for _, fr := range rep.Funcs {
+			for _, n := range fr.Notes {
+				fmt.Println("NOTE", fr.Name, n)
+			}
+			for _, n := range fr.Unsupported {
+				fmt.Println("UNSUPPORTED", fr.Name, n)
+			}
+		}
+		n := 0
+		for _, v := range runs {
+			n += len(v.obls)
+		}
+		fmt.Println("obligations generated:", n)
+		os.Exit(0)
 	}
 	// collect obligations relevant to the property
 	type job struct {
